@@ -127,6 +127,9 @@ func (e *envelopeEncryption) intermediateKeyFromEKR(sk accessorRevokable, ekr *E
 		return e.Crypto.Decrypt(ekr.EncryptedKey, skBytes)
 	})
 	if err != nil {
+		// the key may have been decrypted before the failure (e.g. releasing the SK failed), don't leave it behind
+		internal.MemClr(ikBuffer)
+
 		return nil, err
 	}
 
